@@ -209,6 +209,25 @@ impl Fmt {
                 }
             }
         }
+        // generated programs: every k-th program of the core universe and of the System-F / F-omega
+        // universe (systematic nestings of every term former), undeviated, key configurations
+        if mode != Mode::Text {
+            let (stride, pstride) = if tier == Tier::Thorough { (12, 4) } else { (240, 48) };
+            for (k, pr) in crate::uni::universe(tier).iter().enumerate().step_by(stride) {
+                let text = crate::print::program(&pr.body, &pr.root, &crate::print::Cfg::default()).0;
+                if format_parses(&text) {
+                    let toks = reflex::code_tokens(&text);
+                    bases.push(Base { name: format!("universe{k}"), text, toks });
+                }
+            }
+            for (k, c) in crate::poly::universe(tier).iter().enumerate().step_by(pstride) {
+                let text = crate::poly::program(c, false);
+                if format_parses(&text) {
+                    let toks = reflex::code_tokens(&text);
+                    bases.push(Base { name: format!("poly{k}"), text, toks });
+                }
+            }
+        }
         let n_pairs_end = bases.len();
         let limit = if tier == Tier::Thorough { 6000 } else { 1200 };
         for p in repo_sources() {
@@ -376,7 +395,7 @@ impl Check for Fmt {
         false
     }
     fn rule(&self) -> String {
-        let common = format!("sources = mini corpus + {} formatter minis (one per printer-relevant production/position) + repository sources up to the tier's size limit ({} parseable bases); deviations = at every token gap (strided on repository files in the quick tier) whitespace replaced by space / newline / blank line / double space, one atom parenthesised, one comment of 6 kinds inserted; directive configurations = all 336 combinations of width x indent x layout x parentheses x verbatim at the root for undeviated minis, 6 key configurations (default, width 1, width 20 preserve, width 40 ignore, width 80 indent 4 blank_lines, parentheses preserve) otherwise; every formatter call under catch_unwind in a worker with a 20 s watchdog", FMT_MINIS.len(), self.bases.len());
+        let common = format!("sources = mini corpus + {} formatter minis (one per printer-relevant production/position) + grammar pairs (every production, parenthesised, in every one-hole context) + every 240th (thorough: 12th) program of the core universe and every 48th (4th) of the System-F / F-omega universe as printed by the harness + repository sources up to the tier's size limit ({} parseable bases); deviations = at every token gap (strided on repository files in the quick tier) whitespace replaced by space / newline / blank line / double space, one atom parenthesised, one comment of 6 kinds inserted; directive configurations = all 336 combinations of width x indent x layout x parentheses x verbatim at the root for undeviated minis, 6 key configurations (default, width 1, width 20 preserve, width 40 ignore, width 80 indent 4 blank_lines, parentheses preserve) otherwise; every formatter call under catch_unwind in a worker with a 20 s watchdog", FMT_MINIS.len(), self.bases.len());
         match self.mode {
             | Mode::Meaning => format!("{common}; oracle: rendering does not unwind or hang, the output parses, and the desugared structure of the output (bitter arena printed without ids/spans) equals that of the input; non-trivial = cases where the output differs from the input text"),
             | Mode::Text => format!("{common}; here the comment deviation is exhaustive: each of the 6 comment kinds at every visited token gap; oracle (independent scanner on input and output): the ordered list of (kind, normalised text) of comments is identical — no loss, duplication or reordering (adjacent line comments merged, marker spacing and trailing blanks normalised, block bodies verbatim); every name/literal token of the input occurs in the output (literals equally often, names within the factor pun rewriting allows) and vice versa; non-trivial = cases whose comment is not at a line start"),
